@@ -479,6 +479,16 @@ def origins(fn, operand, extra_identity=(), through_clone=False, through_casts=F
                 if suffix[:len(dp)] == dp:
                     out.append(Origin('call', bb=bb, term=t, suffix=suffix[len(dp):], steps=list(_steps)))
                 continue
+            # `expr?`: the Continue payload is the Ok/Some payload of the operand
+            if suffix[:2] == ['as Continue', '.0'] and call_matches(t, ['core::ops::try_trait::Try::branch']):
+                out += origins(fn, t['args'][0], extra_identity, through_clone, through_casts, _seen,
+                               ['as Ok', '.0'] + suffix[2:], _steps + [('try', bb)])
+                continue
+            # `fut.await`: the Ready payload is the output of the awaited future
+            if suffix[:2] == ['as Ready', '.0'] and call_matches(t, ['core::future::future::Future::poll']):
+                out += origins(fn, t['args'][0], extra_identity, through_clone, through_casts, _seen,
+                               suffix[2:], _steps + [('await', bb)])
+                continue
             k = is_identity_call(t, extra_identity)
             if k is None and through_clone and call_matches(t, ['core::clone::Clone::clone']):
                 k = 0
